@@ -378,14 +378,18 @@ class Worker:
             if task.is_descendant_of(addr):
                 task.cancel()
                 for mailbox_id in task.owned_mailboxes:
-                    self._mailboxes.pop(mailbox_id)
+                    self._mailboxes.pop(mailbox_id, None)
                 self._tasks.pop(key, None)
 
-        # Remove all tasks that are children of `addr` from delayed tasks
-        self._delayed_tasks = [
-            t for t in self._delayed_tasks
-            if not t.is_descendant_of(addr)
-        ]
+        # Remove all tasks that are children of `addr` from delayed tasks.
+        # The main thread pops from this list concurrently, so remove the
+        # cancelled tasks from the list itself rather than rebinding a
+        # filtered copy (a task popped meanwhile would be started twice).
+        for t in [t for t in self._delayed_tasks if t.is_descendant_of(addr)]:
+            try:
+                self._delayed_tasks.remove(t)
+            except ValueError:
+                pass  # Already popped by the main thread
 
     def _handle_communicate(
         self,
@@ -430,13 +434,14 @@ class Worker:
             if not self._running:
                 return None
 
-            if addr in self._cancelled_task_ids or addr not in self._tasks:
+            task_or_none = self._tasks.get(addr)
+            if addr in self._cancelled_task_ids or task_or_none is None:
                 # When a task is cancelled on the worker it is not removed
                 # from the ready queue because it is much cheaper to just
                 # discard cancelled tasks as they come out.
                 continue
 
-            task = self._tasks[addr]
+            task = task_or_none
 
             if any(bcb in self._cancelled_task_ids for bcb in task.breadcrumbs):
                 # If any of the selected tasks ancestor tasks are cancelled
